@@ -104,7 +104,7 @@ PROPS = {
     "C05": {"mc": [MC_VAULT], "suites": [VAULT_SUITE]},
     "C06": {"mc": [MC_VAULT], "suites": [VAULT_SUITE]},
     "C07": {"mc": [MC_POOL, MC_VAULT], "suites": [POOL_SUITE, VAULT_SUITE, POOL_STABLE, TRIO_SUITE]},
-    "C08": {"mc": [MC_LAIR, MC_LAIR_SCHED], "suites": [LAIR_SCHED, LAIR_RANDOM]},
+    "C08": {"mc": [MC_LAIR, MC_LAIR_SCHED, {"module": "MC_LairWeight", "quick": "MC_LairWeight.cfg", "thorough": "MC_LairWeight.cfg", "workers": 4}], "suites": [LAIR_SCHED, LAIR_RANDOM]},
     "C20": {"mc": [_mc_ep("manager", False), _mc_ep("distributor", False), _mc_ep("manager", True), _mc_ep("distributor", True)],
             "suites": [_ep("manager", True), _ep("distributor", True), _ep("manager", False), _ep("distributor", False)],
             # unbounded (any duration, genesis, time steps): inductive invariant of the clock, initiation + consecution
